@@ -20,6 +20,9 @@ type FTask struct {
 	FileDep bool     `json:"file_dep"`
 	Deps    []string `json:"deps,omitempty"`
 	Cmds    []int    `json:"cmds"`
+	// How a failing command fails: "" the shell's own `exit N`; "ext": an external program
+	// exiting N; "sig": an external program killed by a signal; "false": /bin/false
+	How []string `json:"how,omitempty"`
 }
 
 // FailCase is a C09 case.
@@ -37,7 +40,7 @@ type FailCase struct {
 
 var failNames = []string{"alpha", "bravo", "charlie", "delta"}
 var failStatuses = []int{1, 2, 3, 42, 126, 127, 255}
-var failFlagSets = [][]string{nil, {"--quiet"}, {"--json"}, {"--force"}, {"--quiet", "--force"}, {"--json", "--force"}}
+var failFlagSets = [][]string{nil, {"--quiet"}, {"--json"}, {"--force"}, {"--quiet", "--force"}, {"--json", "--force"}, {"--quiet", "--json"}, {"--json", "--quiet", "--force"}}
 
 func genFail(t *rapid.T) FailCase {
 	n := rapid.IntRange(1, 4).Draw(t, "ntasks")
@@ -58,6 +61,7 @@ func genFail(t *rapid.T) FailCase {
 				anyFail = true
 			}
 			ft.Cmds = append(ft.Cmds, st)
+			ft.How = append(ft.How, rapid.SampledFrom([]string{"", "", "ext", "sig", "false"}).Draw(t, "how"))
 		}
 		c.Tasks = append(c.Tasks, ft)
 	}
@@ -109,7 +113,20 @@ func (c FailCase) source() string {
 			if st == 0 {
 				fmt.Fprintf(&b, "    echo %s >> $LOG\n", marker(ti, ci))
 			} else {
-				fmt.Fprintf(&b, "    echo %s >> $LOG; [ -z \"$ARMED\" ] || exit %d\n", marker(ti, ci), st)
+				how := ""
+				if ci < len(t.How) {
+					how = t.How[ci]
+				}
+				fail := fmt.Sprintf("exit %d", st)
+				switch how {
+				case "ext":
+					fail = fmt.Sprintf("sh -c 'exit %d'", st)
+				case "sig":
+					fail = "sh -c 'kill -9 $$'"
+				case "false":
+					fail = "false"
+				}
+				fmt.Fprintf(&b, "    echo %s >> $LOG; [ -z \"$ARMED\" ] || %s\n", marker(ti, ci), fail)
 			}
 		}
 		b.WriteString("}\n\n")
